@@ -313,12 +313,13 @@ def r4(ctx: Ctx) -> None:
     ch = canon_function(h, ctx.model)
     ch = deref(ch, single_defs(ch))
     ctx.site(h.where, "imply: clause = negated antecedents + consequent")
-    v = [st[1] for st in ch if st[0] == "set" and len(st) == 3]
+    # the clause is a local list: the negation of every antecedent (collected in order), then the consequent
+    v = [st[1] for st in ch if st[0] == "set" and len(st) == 3 and st[2] == ("list", ())]
     ok = False
-    if len(v) == 1:
-        want0 = ("set", v[0], ("c", ("g", "list"), (("c", ("g", "map"), (("lambda", 1, (-to_poly(("b", 1, 0))).to_s()), ("p", 0)), ()),), ()))
-        alt0 = ("set", v[0], ("comp", "list", ((-to_poly(("b", 1, 0))).to_s(),), ((("b", 1, 0), ("p", 0), K_TRUE),)))
-        ok = ch[0] in (want0, alt0) and ch[1:] == (("expr", ("c", ("a", v[0], "append"), (("p", 1),), ())), ("expr", ("c", ("a", S_, "add_clause"), (v[0],), ())))
+    if len(v) == 1 and len(ch) == 4 and ch[1][0] == "for":
+        lv = ch[1][1]
+        ok = ch[0] == ("set", v[0], ("list", ())) and ch[1] == ("for", lv, ("p", 0), (("expr", ("c", ("a", v[0], "append"), ((-to_poly(lv)).to_s(),), ())),), ()) \
+            and ch[2:] == (("expr", ("c", ("a", v[0], "append"), (("p", 1),), ())), ("expr", ("c", ("a", S_, "add_clause"), (v[0],), ())))
     if not ok:
         ctx.report(h.where, "imply " + "; ".join(show(x) for x in ch)[:200], "imply does not post (not a1 or ... or not an or consequent)", lineno=h.node.lineno)
     fa = ctx.func(SATM, "SATManager.add_clause")
